@@ -217,7 +217,7 @@ func (s *c06state) checkFaulty(c *Case, out CaseOutcome, ref *RefInfo) {
 		s.count("bubble_goroutine_leak", 1)
 	}
 	r := out.Res
-	s.elog.Case(c, &r)
+	s.elog.Case(c, &r, needsSignBubble(&s.sc.World, c))
 	faultFired := false
 	class := c.Class
 	group := ""
@@ -312,12 +312,23 @@ func (s *c06state) runVariant(v Variant) {
 			s.count("probe.odd_member_pad_write", 1)
 		}
 	}
-	// 1. sink faults, exhaustive in k
+	// 1. sink faults, exhaustive in k. Heavy payloads (deterministic rule:
+	// more than 500 kB of sources) keep every k but fewer variants per k.
+	total := 0
+	for _, e := range w.Tree {
+		total += e.Size
+	}
+	heavy := total > 500000
 	for k := range trace {
 		for _, persistent := range []bool{true, false} {
 			c := Case{Format: v.Format, Sign: v.Sign, Class: "sink", Sink: &SinkFault{At: k, Kind: "error", Persistent: persistent}}
-			s.checkFaulty(&c, s.rt.ExecCase(w, &c), ref)
+			if !heavy || persistent {
+				s.checkFaulty(&c, s.rt.ExecCase(w, &c), ref)
+			}
 			for _, n := range s.partialNs(k, trace[k]) {
+				if heavy && (persistent || n != trace[k]-1) {
+					continue
+				}
 				c := Case{Format: v.Format, Sign: v.Sign, Class: "sink", Sink: &SinkFault{At: k, Kind: "partial", N: n, Persistent: persistent}}
 				s.checkFaulty(&c, s.rt.ExecCase(w, &c), ref)
 			}
